@@ -425,8 +425,8 @@ theorem generic_specifics_partial (rs : List TypeRec) (h : ∀ r ∈ rs, r.paren
 /-- type ta (1) has the binding pa (10) and `generic :: g => pa` (cell 0); its extension tb (2)
     overrides pa (11); tc (3) extends tb and has `generic :: h => pa` (cell 1). -/
 def wGeneric : List TypeRec :=
-  [⟨1, none, [(['p','a'], 10)], [(0, ['P','a'])]⟩, ⟨2, some 1, [(['p','a'], 11)], []⟩,
-   ⟨3, some 2, [], [(1, ['p','a'])]⟩]
+  [⟨1, none, [(['p','a'], 10)], [(0, ['P','a'])], []⟩, ⟨2, some 1, [(['p','a'], 11)], [], []⟩,
+   ⟨3, some 2, [], [(1, ['p','a'])], []⟩]
 
 /-- **generic_specifics_witness**: the code as found leaves tb's overriding binding (11) in the
     list of ta's generic binding, where Fortran designates ta's own binding (10); tc's generic
@@ -683,6 +683,46 @@ theorem slot_lookups_generated :
       Ford.C07Gen.lookupsIgnoreCase = true := by
   decide
 
+/-! ### Round 6: PRIVATE type-bound procedures are inherited -/
+
+/-- **generic_specifics_private_partial** (code as found: an extension skips the PRIVATE bindings of
+    its parent).  When no type of the sequence has a PRIVATE binding (decidable), skipping them is
+    unobservable: the model of the code as found is the model that inherits every binding - the one
+    `generic_specifics_correct` is about -, for shared and for own lists of specifics, any number of
+    types, any inheritance. -/
+theorem generic_specifics_private_partial (sh : Bool) (rs : List TypeRec) (h : ∀ r ∈ rs, r.privs = []) :
+    runTypesD true sh [] [] rs = runTypes sh [] [] rs :=
+  runTypesD_noPrivs sh rs [] [] h (fun _ _ hs => by simp [storeGet] at hs)
+
+/-- the switch off is the model without it (ties `runTypesD false` to the theorems about `runTypes`) -/
+theorem generic_specifics_inherit_all (sh : Bool) (rs : List TypeRec) (st : TStore) (cells : Cells) :
+    runTypesD false sh st cells rs = runTypes sh st cells rs :=
+  runTypesD_false sh rs st cells
+
+/-- `type ta` (1) with `procedure, private :: pa` (10) and a public `pb` (12); `type, extends(ta) :: tb`
+    (2) in the same module with `generic :: g => pa, pb` (slots 0, 1); `type, extends(tb) :: tc` (3)
+    overrides nothing and has `generic :: h => pa` (slot 2). -/
+def wPrivate : List TypeRec :=
+  [⟨1, none, [(['p','b'], 12), (['p','a'], 10)], [], [10]⟩,
+   ⟨2, some 1, [], [(0, ['p','a']), (1, ['P','b'])], []⟩,
+   ⟨3, some 2, [], [(2, ['p','a'])], []⟩]
+
+/-- **generic_specifics_private_witness**: the code as found does not hand ta's PRIVATE binding `pa`
+    down to its extensions, so the specific `pa` of tb's and tc's generic bindings stays text although
+    the binding is inherited (F2018 7.5.7.2) and, in the module that defines ta, accessible; the public
+    `pb` is found.  Inheriting every binding, the model equals the specification. -/
+theorem generic_specifics_private_witness :
+    genericResD true false wPrivate = [(0, none), (1, some 12), (2, none)] ∧
+      genericResD false false wPrivate = [(0, some 10), (1, some 12), (2, some 10)] ∧
+      specGenericRes [] wPrivate = [(0, some 10), (1, some 12), (2, some 10)] := by decide
+
+/-- **private_binding_generated** (regenerated table): on the translator's witness (the Fortran text of
+    `wPrivate`) the working tree leaves in the three specifics what the model computes - as found
+    (PRIVATE bindings skipped) or with the repair (every binding inherited = the specification). -/
+theorem private_binding_generated :
+    Ford.C07Gen.privateProbe = genericResD true false wPrivate ∨
+      Ford.C07Gen.privateProbe = genericResD false false wPrivate := by decide
+
 /-! ### Round 6: accessibility - a USE statement sees exactly the PUBLIC identifiers of a module -/
 
 section Access
@@ -763,6 +803,62 @@ theorem reexport_follows_default (m : AModule) (tb : Table) (n : Str) :
       if m.dflt = .pub ∨ n ∈ publicList m then tget tb n else none := by
   rw [filterTable_get]
   simp [shouldBePublic]
+
+/-- **exports_are_accessible_frame** ("a declaration ... wins over use-associated ... ones" presupposes
+    what is use-associated): for every module that is Fortran - any number of declarations, access
+    statements and USE statements (with ONLY lists and renames), any modules before it - the public
+    tables FORD builds (`_cleanup`: accessibility from default / attribute / statements, constructor
+    follows its type, `filter_public`; `correlate`: `pub_*.update(filter_public(imported))`) answer
+    every lookup exactly like the specification: the identifiers visible at the module's top level
+    (declared or use-associated) that Fortran makes PUBLIC there.  Hypotheses = validity of the
+    module: at most one access statement per identifier, access attributes on type declarations only,
+    distinct type names, no procedure named like a type, a PRIVATE statement names declared
+    identifiers only (`privatesDeclared`; the excluded class is C06-private-imported-reexported), no
+    declared identifier is also use-associated. -/
+theorem exports_are_accessible_frame (env : ModEnv) (m : AModule)
+    (hS : stmtsOnce m.stmts = true) (hV : privatesDeclared m = true)
+    (hA : ∀ d ∈ m.decls, d.kind ≠ .ty → d.attr = none)
+    (hT : ∀ d ∈ m.decls, d.kind = .ty → typeNamed m.decls (lower d.name) = some d)
+    (hP : ∀ d ∈ m.decls, (d.kind = .pr ∨ d.kind = .ab) → typeNamed m.decls (lower d.name) = none)
+    (hC : ∀ u ∈ m.uses, ∀ x, findMod env (lower u.mod) = some x → ∀ n, declared m.decls n = true →
+      tget (importTable x.p u) n = none ∧ tget (importTable x.a u) n = none ∧ tget (importTable x.t u) n = none)
+    (n : Str) :
+    tget (exportsA asBuilt env m).p n = tget (specExportsA env m).p n ∧
+      tget (exportsA asBuilt env m).a n = tget (specExportsA env m).a n ∧
+      tget (exportsA asBuilt env m).t n = tget (specExportsA env m).t n := by
+  have hfin : ∀ d ∈ m.decls, finalPerm asBuilt m d = accOf m (lower d.name) :=
+    fun d hd => accessibility_is_fortran m d hS (hA d hd) (hT d hd) (hP d hd)
+  have base : SameF m
+      ⟨localPubK asBuilt m .gi m.decls ++ localPubK asBuilt m .pr m.decls, localPubK asBuilt m .ab m.decls,
+        localPubK asBuilt m .ty m.decls⟩
+      ⟨localAllK .gi m.decls ++ localAllK .pr m.decls, localAllK .ab m.decls, localAllK .ty m.decls⟩ := by
+    intro k
+    simp [localPubK_filter asBuilt m _ m.decls hfin, filterTable_append]
+  have hC' : ∀ u ∈ m.uses, ∀ x, findMod env (lower u.mod) = some x → ∀ k,
+      (tget (importTable x.p u) k ≠ none ∨ tget (importTable x.a u) k ≠ none ∨ tget (importTable x.t u) k ≠ none) →
+        shouldBePublic m k = accessible m k := by
+    intro u hu x hx k hk
+    cases hd : declared m.decls k with
+    | false => exact shouldBePublic_undeclared m k hV hd
+    | true =>
+      have h3 := hC u hu x hx k hd
+      simp [h3.1, h3.2.1, h3.2.2] at hk
+  exact reexports_same m env m.uses _ _ base hC' n
+
+/-- default-PRIVATE module: `type, public :: tb` (1) with constructor `interface tb` (2), `public :: pa`,
+    procedures pa (3), pb (4), type ta (5) -/
+def wAcc : AModule :=
+  ⟨['m','0'], .priv, [(.pub, ['P','a'])], [],
+   [⟨.ty, ['t','b'], 1, some .pub⟩, ⟨.gi, ['T','b'], 2, none⟩, ⟨.pr, ['p','a'], 3, none⟩, ⟨.pr, ['p','b'], 4, none⟩,
+    ⟨.ty, ['t','a'], 5, none⟩], []⟩
+
+/-- non-vacuity of `exports_are_accessible_frame`: its hypotheses hold for `wAcc`, whose public tables
+    hold the constructor of the PUBLIC type and the procedure named PUBLIC, and nothing else -/
+example : (∀ n, tget (exportsA asBuilt [] wAcc).p n = tget (specExportsA [] wAcc).p n) ∧
+    (exportsA asBuilt [] wAcc).p = [(['t','b'], 2), (['p','a'], 3)] ∧
+    (exportsA asBuilt [] wAcc).t = [(['t','b'], 1)] :=
+  ⟨fun n => (exports_are_accessible_frame [] wAcc (by decide) (by decide) (by decide) (by decide) (by decide)
+      (by intro u hu; simp [wAcc] at hu) n).1, by decide, by decide⟩
 
 /-- m0: `type, private :: ta` (1) with the constructor idiom `interface ta` (2), default PUBLIC;
     m1 uses m0 and declares its own `type ta` (3): slot 0 = constructor of m1's ta, slot 1 =
